@@ -659,8 +659,8 @@ class SyncObj(object):
             for entry in entries:
                 try:
                     currentTermID = entry[2]
-                    subscribers = self.__commandsWaitingCommit.pop(entry[1], [])
                     res = self.__doApplyCommand(entry[0])
+                    subscribers = self.__commandsWaitingCommit.pop(entry[1], [])
                     for subscribeTermID, callback in subscribers:
                         if subscribeTermID == currentTermID:
                             callback(res, FAIL_REASON.SUCCESS)
@@ -672,6 +672,8 @@ class SyncObj(object):
                     logger.error(
                         'request to switch to unsupported code version (self version: %d, requested version: %d)' %
                         (self.__selfCodeVersion, e.ver))
+                    # Can't apply anything after the unsupported version switch
+                    break
 
             if not self.__conf.appendEntriesUseBatch:
                 needSendAppendEntries = True
